@@ -178,13 +178,25 @@ func (h *Hub) CancelPairingWithSKI(ski string) {
 
 	h.removeConnectionAttemptCounter(ski)
 
+	// a completed pairing is no pairing process, there is nothing to cancel:
+	// the connection stays, so do not report "not paired" for it
 	if existingC := h.connectionForSKI(ski); existingC != nil {
-		// a completed pairing is no pairing process, there is nothing to cancel:
-		// the connection stays, so do not report "not paired" for it
 		if state, _ := existingC.ShipHandshakeState(); state == model.SmeStateComplete {
 			return
 		}
+	}
 
+	// remove the trust before looking at the connection: a connection coming in from now on
+	// waits for the user, one that came in before is found below
+	service := h.ServiceForSKI(ski)
+	service.SetTrusted(false)
+
+	// wait for a connection that is just being set up, it is registered afterwards
+	h.muxConSetup.Lock()
+	existingC := h.connectionForSKI(ski)
+	h.muxConSetup.Unlock()
+
+	if existingC != nil {
 		existingC.AbortPendingHandshake()
 
 		// a handshake which is not waiting for trust can not be aborted that way:
@@ -198,8 +210,8 @@ func (h *Hub) CancelPairingWithSKI(ski string) {
 		}
 	}
 
-	service := h.ServiceForSKI(ski)
 	service.ConnectionStateDetail().SetState(api.ConnectionStateNone)
+	// a handshake message processed meanwhile may have set the service to trusted again
 	service.SetTrusted(false)
 
 	h.hubReader.ServicePairingDetailUpdate(ski, service.ConnectionStateDetail())
